@@ -246,6 +246,14 @@ def index_checks(rep: Report, prog: Program) -> None:
           jdeps = depends_on(f, {p for p, a in ren.args.items() if names_in(a) & top_jdeps})
           built = appended(f) | {p for p, a in ren.args.items() if isinstance(a, ast.Name) and a.id in top_built}
       cfg = cfg_of(f)
+
+      def len_names(L, f=f):
+          # locals that only ever hold len(L) (`num_nodes = len(nodes)`, possibly assigned in several pasted copies of one helper)
+          vals: Dict[str, Set[str]] = {}
+          for a_ in own_nodes(f.node):
+              if isinstance(a_, ast.Assign) and len(a_.targets) == 1 and isinstance(a_.targets[0], ast.Name):
+                  vals.setdefault(a_.targets[0].id, set()).add(norm(a_.value))
+          return {n_: 2 for n_, vs in vals.items() if vs == {f"len({L})"}}
       # (b) a helper that looks up ONE index it is given (`_node_by_number(nodes, vi, ...)` called per element): the index
       #     parameter is checked on the paths from the helper's entry
       if f is not top:
@@ -262,7 +270,7 @@ def index_checks(rep: Report, prog: Program) -> None:
                   raises = {n for n, nd in cfg.nodes.items() if nd.kind == 'raise'}
                   bad = []
                   for v in (-2, -1, 0, 1, 2, 3):
-                      r = walk(cfg, cfg.entry, Env(ints={p_: v, f"len({L})": 2}), stop=lambda n: n in raises, unknown='both')
+                      r = walk(cfg, cfg.entry, Env(ints={p_: v, f"len({L})": 2, **len_names(L)}), stop=lambda n: n in raises, unknown='both')
                       reached = unode in r
                       if 0 <= v < 2 and not reached:
                           bad.append(f"{p_}={v} (valid) never reaches {norm(u)}")
@@ -289,7 +297,7 @@ def index_checks(rep: Report, prog: Program) -> None:
               handlers = [b for b, l in cfg.succ[unode] if l == 'exc']
               bad = []
               for v in (-2, -1, 0, 1, 2, 3):
-                  env = Env(ints={iv: v, f"len({L})": 2})
+                  env = Env(ints={iv: v, f"len({L})": 2, **len_names(L)})
                   r = walk(cfg, body_entry, env, loop_header_stop=hdr, stop=lambda n: n in raises, unknown='both')
                   reached = unode in r
                   in_range = 0 <= v < 2
